@@ -1,6 +1,6 @@
 SPECIFICATION TSpec
 INVARIANT Report
 INVARIANT Stuck
-CONSTANT CheckPattern = TRUE
-CONSTANT CheckText = FALSE
+CONSTANT CheckPattern = FALSE
+CONSTANT CheckText = TRUE
 CHECK_DEADLOCK FALSE
